@@ -131,7 +131,7 @@ def gen_spec(rng, scale_kind=None, n=None, direction=None, c08=False, text_class
     tcls = rng.choice(text_classes or TEXT_CLASSES)
     widths = rng.sample(range(8, 8 + 3 * n + 40), n)  # distinct widths: every box identifies its datum
     if rng.random() < 0.2:
-        widths = [w + rng.choice([0.5, 0.5, 0.7, 0.25]) for w in widths]
+        widths = [w + rng.choice([0.5, 0.5, 0.7, 0.25, 0.328125, 0.0078125]) for w in widths]
     if rng.random() < 0.05:
         widths[rng.randrange(n)] = rng.choice([0, 0.0, 1])  # still distinct from every other width
     data = []
